@@ -9,7 +9,7 @@ mkdir -p .work evidence
 if grep -rnE '\b(Admitted|admit|Axiom|Parameter|Conjecture|Admit Obligations)\b|Unset Guard|bypass_check|type-in-type|impredicative-set' coq --include='*.v' | grep -v '^coq/gen/SourceFacts.v'; then
   echo "forbidden token in the Coq development" >&2; exit 1
 fi
-python3 tools/gen_schema.py coq/sch/Schema.v coq/sch/ChildFacts.v
+python3 tools/gen_schema.py coq/sch/Schema.v coq/sch/ChildFacts.v coq/sch/SchemaRel.v
 python3 tools/gen_codec.py coq/sch/Codec.v
 python3 tools/gen_ocaml.py ocaml/schema_conv.ml
 python3 tools/gen_zoo.py harness/zoo_gen.go
